@@ -83,4 +83,27 @@ CLAIMED = {
              'model projections. Parsing/formatting requests join the corpus once their models are merged. Defects D4, D5, D8 (profile-dependent) were found this way and repaired.',
         design_ref='7/C11', note=COMMON_NOTE + ' Both profiles use opt-level 1; code generation differences beyond the two flags are outside the model.',
         technique='Lean 4 proof (Outcome discipline) + two-profile differential correspondence'),
+    'C12': dict(
+        text='Theorems SfxProps.C12.result_functions_hold (sqrt, log2, ln, exp, pow, powi: for every operand of every supported signed type and EVERY integer exponent no panic and no '
+             'debug-only check — full), sin_cos_total (sin for every angle, cos for |x| <= 200 — full, stronger than asked), log_err_only_when_undefined, log2_iterations. '
+             'tan: PARTIAL (tan_partial): the two inner calls are total and tan panics/flags exactly when the computed denominator is zero / the quotient does not fit; that this cannot '
+             'happen where |tan x| <= 64 needs the unproved accuracy of cos (C16). Correspondence in both profiles incl. i32::MIN exponents; panics observed only outside the property\'s domain.',
+        design_ref='7/C12', note=COMMON_NOTE, technique='Lean 4 proof (value invariants through the loops) over executable model + two-profile correspondence'),
+    'C14': dict(
+        text='PARTIAL. Full statement C14_statement (over the reals) is in SfxProps/C14.lean; theorem C14_partial proves for every supported type and operand: totality, the exact Err '
+             'condition, result representable, sign claims, exactness on every power of two (log2) and totality/Err condition for ln. NOT proved: the 8-ulp and 2^-23 relative error bounds; '
+             'they are judged on every run by the mpmath search oracle on the implementation\'s answers (worst observed 0.43 of the bound), which is search support, not a proof.',
+        design_ref='7/C14', note=COMMON_NOTE + ' The numeric error bounds rest on sampled oracle judgements only.', technique='Lean 4 proof (partial) + differential correspondence + mpmath search oracle'),
+    'C15': dict(
+        text='PARTIAL + KNOWN FINDING. Full statement C15_statement in SfxProps/C15.lean; theorem C15_partial proves the whole powi clause (exact rational error bound (n-1) ulp * max(1,|x|)^(n-1) '
+             'for n >= 2, truncated reciprocal for n < 0), the conventions 0^y, x^0, x^1 of pow and powi, totality (C12). NOT proved: error bounds of exp and pow. exp violates the property '
+             'for large operands (truncated series, no argument reduction): recorded as known finding D10 (ids D10-exp, D10-pow) with a predicate on (layout, operand); any oracle-judged failure '
+             'outside that region is reported as a violation.',
+        design_ref='7/C15', note=COMMON_NOTE + ' exp/pow accuracy outside the finding region rests on sampled oracle judgements only.', technique='Lean 4 proof (partial) + differential correspondence + mpmath search oracle + known-findings file'),
+    'C16': dict(
+        text='PARTIAL. Full statement C16_statement in SfxProps/C16.lean; proved: C16_partial (exact range reduction modulo the 23-bit 2pi constant into [-pi,pi] and mirror into [-pi/2,pi/2] for '
+             'EVERY angle; the model CORDIC equals the plain-integer iteration, profile-independent, bounded by 3) and table_facts over the regenerated constants (24 arctan entries within 2^-54-i '
+             'of Gregory series, convergence condition, coverage of pi/2, entry 0 = truncated consts::PI, gain^2 * prod(1+4^-i) in [1, 1+2^-31)). NOT proved: the real-analysis step to the 2^-16 / '
+             '2^-14 bounds; judged on every run by the mpmath search oracle (worst observed 0.22 of the bound).',
+        design_ref='7/C16', note=COMMON_NOTE + ' The numeric error bounds rest on sampled oracle judgements only.', technique='Lean 4 proof (partial) + translator-checked tables + differential correspondence + mpmath search oracle'),
 }
